@@ -17,6 +17,8 @@ CHECKS = {
          "deterministic simulation: reference error model over seeded error scripts"),
  "C05": ("exploration", "Sampled header/trailer multimaps in both directions and both trailer declaration styles; relocation model checked at the backend seam and at the client seam (position per client protocol, no status-key leaks).",
          "deterministic simulation: metadata relocation model over seeded header sets"),
+ "C09": ("fault_enumeration", "Single faults are enumerated on a corpus of small scenarios covering every adapter path: every request cut offset (clean and error), every response cut offset, every flag byte value, every single-bit flip of compressed payloads, frame-length and Content-Length mis-statements; an independent strict parser decides malformedness; thorough is the complete enumeration, quick a seeded sample.",
+         "deterministic simulation: exhaustive single-fault enumeration (crash points on both streams) with a reference stream parser as oracle"),
  "C08": ("exploration", "I/O segmentation is the schedule: every scenario is run atomically and under drawn segmentations of deliveries, handler read sizes, handler writes/flushes and scheduling policies; metamorphic equality of handler-visible request bytes and canonical client outcome.",
          "deterministic simulation: atomic-vs-segmented differential under seeded I/O schedules"),
 }
